@@ -297,13 +297,19 @@ pub fn add_section_to_elf(mut elf_bytes: Vec<u8>, new_section_name: &str, mut ne
     write_field::<u64>(&mut section_header_table,
         section_names_section_idx * section_header_size + 0x20, section_names_table_new_size as u64)?;
 
-    // Update the section headers for any sections following the names section,
-    // as their offsets will have been bumped up now that we inserted data
-    for section_idx in section_names_section_idx + 1..orig_num_sections {
+    // Update the section headers for any sections whose data comes after the names section in the file
+    // (wherever their header is in the table), as their offsets will have been bumped up now that we inserted data
+    let insertion_offset = (section_names_table_offset + section_names_table_old_size) as u64;
+    for section_idx in 0..orig_num_sections {
+        if section_idx == section_names_section_idx {
+            continue;
+        }
         let section_offset_offset = section_idx * section_header_size + 0x18;
         let orig_offset = read_field::<u64>(&section_header_table, section_offset_offset)?;
-        let new_offset = orig_offset + inserted_name_num_bytes as u64;
-        write_field::<u64>(&mut section_header_table, section_offset_offset, new_offset)?;
+        if orig_offset >= insertion_offset {
+            let new_offset = orig_offset + inserted_name_num_bytes as u64;
+            write_field::<u64>(&mut section_header_table, section_offset_offset, new_offset)?;
+        }
     }
 
     // Add our new section data!
